@@ -178,6 +178,10 @@ func RunAll(pkgs []*Pkg, variants []Variant, each func(fr fileResult)) {
 					}
 					fr := fileResult{pkg: p, file: f, outcomes: make([]Outcome, len(variants))}
 					for i := range variants {
+						if p.DefaultOnly && variants[i].Tag != "" {
+							fr.outcomes[i] = Outcome{Skipped: true}
+							continue
+						}
 						fr.outcomes[i] = r.CheckFile(i, f)
 						if fr.outcomes[i].Timeout {
 							r.SetPkg(p)
@@ -228,7 +232,10 @@ func compute(tier string, seed int64, dir string) *Shared {
 		s.Notes = append(s.Notes, "stress package does not type-check (ignored): "+m)
 	}
 	s3 := Mutants(s1, tier, seed, s.Mutants)
-	all := append(append(append([]*Pkg{}, s1...), s2...), s3...)
+	sy, sk3 := LoadSynth()
+	s.Skipped = append(s.Skipped, sk3...)
+	s4 := Systematic(append(append([]*Pkg{}, s1...), sy...), tier, seed, s.Mutants)
+	all := append(append(append(append(append([]*Pkg{}, s1...), s2...), s3...), sy...), s4...)
 	for _, p := range all {
 		s.Packages[p.Stream]++
 		if p.Focus != "" {
@@ -241,13 +248,33 @@ func compute(tier string, seed int64, dir string) *Shared {
 	var hits []c01Hit
 	starts := map[*File]map[int]bool{}
 	var obs []*FileRun
+	allOffs := map[string][][]int{}
+	var layoutRuns []fileResult
 	RunAll(all, variants, func(fr fileResult) {
 		st := TokenStarts(fr.file.Src)
 		starts[fr.file] = st
 		run := &FileRun{Pkg: fr.pkg.Name, File: fr.file.Name, Outcomes: map[string]ModelObs{}, Namesake: map[string][]int{}}
 		tf := Fset.File(fr.file.AST.Pos())
+		offs := make([][]int, len(variants))
+		allOffs[fr.pkg.Name+"/"+fr.file.Name] = offs
+		if fr.pkg.BaseKey != "" {
+			layoutRuns = append(layoutRuns, fr)
+		}
 		for i, out := range fr.outcomes {
 			v := variants[i]
+			if out.Skipped {
+				continue
+			}
+			if out.Err == "" && out.Panic == nil && !out.Timeout {
+				offs[i] = []int{}
+				for _, d := range out.Diags {
+					o := -1
+					if d.Pos.IsValid() && Fset.File(d.Pos) == tf {
+						o = tf.Offset(d.Pos)
+					}
+					offs[i] = append(offs[i], o)
+				}
+			}
 			s.Evaluations++
 			name := v.Info.Name
 			if out.Err != "" {
@@ -291,6 +318,15 @@ func compute(tier string, seed int64, dir string) *Shared {
 						map[string]interface{}{"package": fr.pkg.Name, "file": fr.file.Name, "checker": v.String(), "position": posStr(d.Pos),
 							"text": d.Text, "line": sourceLine(fr.file, d), "origin": fr.pkg.Origin})
 				}
+				if RuleMethodSubjects()[name] != nil {
+					s.C20Checked++
+					if f20 := CheckC20Method(fr.pkg, fr.file, name, d); f20 != nil {
+						s.fail("C20", "C20/"+name+"/"+f20.Subject+"-namesake",
+							fmt.Sprintf("%s reports %q at %s although the method spelled %s resolves to %s", name, clip(d.Text, 120), posStr(d.Pos), f20.Spelled, f20.Resolves),
+							map[string]interface{}{"package": fr.pkg.Name, "file": fr.file.Name, "checker": v.String(), "position": posStr(d.Pos),
+								"text": d.Text, "line": sourceLine(fr.file, d), "resolves_to": f20.Resolves, "origin": fr.pkg.Origin})
+					}
+				}
 				if len(SubjectsOf(name)) > 0 {
 					s.SubjectDiag[name]++
 					s.C20Checked++
@@ -312,6 +348,37 @@ func compute(tier string, seed int64, dir string) *Shared {
 		}
 		obs = append(obs, run)
 	})
+
+	// C07 (layout): diagnostics of a file with extra blanks between tokens sit at the same places
+	for _, fr := range layoutRuns {
+		base := allOffs[fr.pkg.BaseKey]
+		mine := allOffs[fr.pkg.Name+"/"+fr.file.Name]
+		if base == nil || mine == nil {
+			continue
+		}
+		for i := range variants {
+			if base[i] == nil || mine[i] == nil {
+				continue
+			}
+			want := append([]int{}, base[i]...)
+			var got []int
+			for _, o := range mine[i] {
+				if o >= 0 {
+					o = unmapOffset(fr.pkg.Ins, o)
+				}
+				got = append(got, o)
+			}
+			sort.Ints(want)
+			sort.Ints(got)
+			if fmt.Sprint(want) != fmt.Sprint(got) {
+				name := variants[i].Info.Name
+				s.fail("C07", "C07/"+name+"/layout-dependent-position",
+					fmt.Sprintf("%s: inserting blanks between tokens of %s moves/changes its diagnostics: offsets %v on the original, %v (mapped back) on the perturbed file", name, fr.pkg.BaseKey, want, got),
+					map[string]interface{}{"package": fr.pkg.Name, "file": fr.file.Name, "checker": name, "origin": fr.pkg.Origin,
+						"original_offsets": want, "perturbed_offsets_mapped": got, "perturbed_source": clip(string(fr.file.Src), 4000)})
+			}
+		}
+	}
 
 	// C01: group by defect class, shrink the first witness of each class
 	sort.SliceStable(hits, func(i, j int) bool {
